@@ -246,8 +246,8 @@ def run(ctx):
             if r1 != r2:
                 det.append("signal round %s != wait round %s" % (r1, r2))
         # the loop runs over all LogP rounds
-        loops = [b for b in fn.blocks.values() if (b.get("term") or {}).get("cls") == "ForStmt"]
-        if len(loops) != 1 or "LogP" not in (loops[0]["term"].get("text") or ""):
+        loops = [b for b in fn.blocks.values() if (b.get("term") or {}).get("cls") in ("ForStmt", "WhileStmt")]
+        if len([b for b in loops if "LogP" in (b["term"].get("text") or "")]) != 1:
             det.append("round loop is not bounded by LogP")
         ctx.ob("C05.reset-before-release", f["qn"], not det, "; ".join(det), fn.loc(), "rounds", fnkey=f["key"])
 
